@@ -185,9 +185,52 @@ pub fn run(c: &mut Ctx) {
         let v = gen_valid(c);
         vals.push(v);
     }
+    // unit-directed values (seed R4-C06-a: an accessor dividing the stored floor-seconds goes wrong only for a
+    // negative duration less than a second short of a whole number of its units): k units +- up to a second
+    for unit in [604_800i128, 86_400, 3_600, 60, 1] {
+        let n_k = c.n(40, 400);
+        for j in 0..n_k {
+            let k: i128 = match j % 4 {
+                0 => (j as i128 / 4) - 5,
+                1 => -(c.rng.range(1, 1000) as i128),
+                2 => c.rng.range(1, 1000) as i128,
+                _ => (c.rng.log_i64() as i128) % (NS_MAX / 1_000_000_000 / unit),
+            };
+            for e in [0i128, 1, -1, 999_999_999, -999_999_999, 1_000_000_000, -1_000_000_000, 500_000_000, -500_000_000, 1_000_000, -1_000_000] {
+                let ns = k * unit * 1_000_000_000 + e;
+                if !in_range(ns) {
+                    continue;
+                }
+                let (sec, nano) = (ns.div_euclid(1_000_000_000) as i64, ns.rem_euclid(1_000_000_000) as u32);
+                if let Some(d) = TimeDelta::new(sec, nano) {
+                    vals.push(d);
+                    c.count("val:unit-directed");
+                }
+            }
+        }
+    }
     for d in &vals {
         let (s, n) = raw(d);
         let exact = ns_of(d);
+        // direct oracle: every whole-unit accessor is the exact count truncated toward zero
+        if let Ok(t) = guard(|| (d.num_weeks(), d.num_minutes(), d.num_milliseconds(), d.num_microseconds(), d.num_nanoseconds(), d.subsec_millis(), d.subsec_micros())) {
+            let fits = |x: i128| if i64::try_from(x).is_ok() { Some(x as i64) } else { None };
+            if t.0 as i128 != exact / 604_800_000_000_000 {
+                c.fail("num_weeks does not truncate toward zero", &format!("{s} {n} -> {}", t.0));
+            }
+            if t.1 as i128 != exact / 60_000_000_000 {
+                c.fail("num_minutes does not truncate toward zero", &format!("{s} {n} -> {}", t.1));
+            }
+            if t.2 as i128 != exact / 1_000_000 {
+                c.fail("num_milliseconds does not truncate toward zero", &format!("{s} {n} -> {}", t.2));
+            }
+            if t.3 != fits(exact / 1_000) || t.4 != fits(exact) {
+                c.fail("num_microseconds / num_nanoseconds are not the exact count when it fits i64 and None otherwise", &format!("{s} {n} -> {:?} {:?}", t.3, t.4));
+            }
+            if t.5 as i128 != (exact % 1_000_000_000) / 1_000_000 || t.6 as i128 != (exact % 1_000_000_000) / 1_000 {
+                c.fail("subsec_millis / subsec_micros do not truncate toward zero", &format!("{s} {n} -> {} {}", t.5, t.6));
+            }
+        }
         let acc = gs(
             || {
                 (
@@ -385,6 +428,23 @@ pub fn run(c: &mut Ctx) {
             Some(a) => a,
             None => continue,
         };
+        // one case in eight: the ends of the machine windows an implementation could compute in (i64 nanoseconds,
+        // i64 microseconds) with the divisors whose quotient leaves the window (seed R4-C06-b: -2^63 ns / -1)
+        let (a, k) = if c.rng.chance(1, 8) {
+            let j = c.rng.range(0, 2);
+            let a = match c.rng.below(4) {
+                0 => TimeDelta::nanoseconds(i64::MIN + j),
+                1 => TimeDelta::nanoseconds(i64::MAX - j),
+                2 => TimeDelta::microseconds(i64::MIN + j),
+                _ => TimeDelta::nanoseconds(i64::MIN + j).checked_sub(&TimeDelta::nanoseconds(c.rng.range(0, 2))).unwrap(),
+            };
+            c.count("div:machine-window-end");
+            (a, *c.rng.pick(&[-1, 1, 2, -2, i32::MIN, i32::MAX, k]))
+        } else {
+            (a, k)
+        };
+        let ka = (k as i64).abs();
+        let _ = ka;
         let (s, n) = raw(&a);
         let ea = ns_of(&a);
         let div = guard(|| a.checked_div(k));
